@@ -63,7 +63,8 @@ class Run:
             open(os.path.join(src, "go.mod"), "w").write(gm)
             shutil.copy(os.path.join(repo, "go.sum"), os.path.join(src, "go.sum"))
         tags = "verif " + " ".join("drv_" + n for n in names)
-        cmd = ["go", "build", "-tags", tags] + (["-race"] if race else []) + ["-o", out, "./cmd/vharness"]
+        cover = ["-cover", "-covermode=atomic", "-coverpkg=vharness/...,github.com/jamespfennell/gtfs/..."] if os.environ.get("VERIF_COVER") else []   # bin/libcoverage
+        cmd = ["go", "build", "-tags", tags] + (["-race"] if race else []) + cover + ["-o", out, "./cmd/vharness"]
         p = subprocess.run(cmd, cwd=src, env=env, capture_output=True, text=True)
         if p.returncode != 0:
             if optional:
